@@ -164,6 +164,27 @@ func mutateInstance(in *instance, m shapeMut) (*instance, error) {
 		case "NumQueryRounds":
 			set(&out.Common.Config.FriConfig.NumQueryRounds)
 			set(&out.Common.FriParams.Config.NumQueryRounds)
+		// the FRI configuration is carried twice (config.fri_config and fri_params.config): each copy alone
+		case "NumQueryRounds(config.fri_config only)":
+			set(&out.Common.Config.FriConfig.NumQueryRounds)
+		case "NumQueryRounds(fri_params.config only)":
+			set(&out.Common.FriParams.Config.NumQueryRounds)
+		case "CapHeight(config.fri_config only)":
+			set(&out.Common.Config.FriConfig.CapHeight)
+		case "CapHeight(fri_params.config only)":
+			set(&out.Common.FriParams.Config.CapHeight)
+		case "RateBits(config.fri_config only)":
+			set(&out.Common.Config.FriConfig.RateBits)
+		case "RateBits(fri_params.config only)":
+			set(&out.Common.FriParams.Config.RateBits)
+		case "ProofOfWorkBits(config.fri_config only)":
+			set(&out.Common.Config.FriConfig.ProofOfWorkBits)
+		case "ProofOfWorkBits(fri_params.config only)":
+			set(&out.Common.FriParams.Config.ProofOfWorkBits)
+		case "DegreeBits(fri_params only)":
+			set(&out.Common.FriParams.DegreeBits)
+		case "DegreeBits(common only)":
+			set(&out.Common.DegreeBits)
 		case "CapHeight":
 			set(&out.Common.Config.FriConfig.CapHeight)
 			set(&out.Common.FriParams.Config.CapHeight)
@@ -276,7 +297,13 @@ func c20Mutations(in *instance, thorough bool) []shapeMut {
 			ms = append(ms, shapeMut{Path: p, Op: op})
 		}
 	}
-	for _, f := range []string{"NumQueryRounds", "CapHeight", "RateBits", "DegreeBits", "ArityBitsLast", "NumChallenges", "NumPartialProducts", "QuotientDegreeFactor", "NumWires", "NumRoutedWires", "NumConstants"} {
+	// single-copy alterations only where the verifier reads both copies of a field (the number of query
+	// rounds: the transcript samples config.fri_config's many indices, the shape checks use
+	// fri_params.config's; degree bits: the PLONK check and the FRI check). config.fri_config's cap height,
+	// rate bits and proof-of-work bits are not read at all (fri_params.config's are), so altering only
+	// those changes nothing the verifier sees and is not a configuration change in the property's sense.
+	for _, f := range []string{"NumQueryRounds(config.fri_config only)", "NumQueryRounds(fri_params.config only)", "DegreeBits(fri_params only)", "DegreeBits(common only)",
+		"NumQueryRounds", "CapHeight", "RateBits", "DegreeBits", "ArityBitsLast", "NumChallenges", "NumPartialProducts", "QuotientDegreeFactor", "NumWires", "NumRoutedWires", "NumConstants"} {
 		ms = append(ms, shapeMut{Op: "cfg:" + f + ":+1"}, shapeMut{Op: "cfg:" + f + ":-1"})
 	}
 	ms = append(ms, shapeMut{Op: "cfg:ArityBitsDrop:0"}, shapeMut{Op: "cfg:ArityBitsAdd:0"})
